@@ -244,25 +244,31 @@ _POOL = {}
 
 
 def _pool(env):
-    """slot (0..5) -> list of PIDs whose Process hash has (hash & 31) == slot; the fake tree holds them all"""
+    """slot (0..5) -> a PID whose Process hash has (hash & 31) == slot.  The hash is hash(Process._ident) =
+    hash((pid, start time)); one real object gives the second component, candidates are verified on real objects."""
     import psutil
     key = env["work"]
     if key in _POOL:
         return _POOL[key]
     fp = _fake(env, "pool")
+    fp.add(999, starttime=777)
+    probe = psutil.Process(999)
+    ident2 = probe._ident[1]
+    assert hash(probe) == hash((999, ident2))
     slots = {}
-    pid = 1000
-    while len(slots) < 6 or min(len(v) for v in slots.values()) < 1:
-        fp.add(pid, starttime=777)
-        h = hash(psutil.Process(pid)) & 31
-        fp.remove(pid)
-        if h < 6:
-            slots.setdefault(h, []).append(pid)
-        pid += 1
-        if pid > 20000:
-            raise RuntimeError("no PID pool")
-    _POOL[key] = {s: v[0] for s, v in slots.items()}
-    return _POOL[key]
+    for pid in range(1000, 30000):
+        h = hash((pid, ident2)) & 31
+        if h < 6 and h not in slots:
+            fp.add(pid, starttime=777)
+            if hash(psutil.Process(pid)) & 31 == h:
+                slots[h] = pid
+            fp.remove(pid)
+            if len(slots) == 6:
+                break
+    if len(slots) < 6:
+        raise RuntimeError("no PID pool")
+    _POOL[key] = slots
+    return slots
 
 
 def run_procs(case, env, mode):
